@@ -945,6 +945,13 @@ def _pair_loop(t):
     """for i, x in enumerate(G): for y in G[i + 1:]: acc.step(x, y)   ->   for (x, y) in itertools.combinations(G, 2): acc.step(x, y)
     (the index i is used for the slice only)."""
     d, it, init, inner = t[2], strip(t[3]), t[4], strip(t[5])
+    if head(inner) == "bin" and inner[1] == "+" and strip(inner[2]) == ("acc", d, 0) and head(strip(inner[3])) == "comp":
+        # the inner loop was already read as  acc + [elt for y in G[i + 1:]] : back to the loop form
+        c = strip(inner[3])
+        if c[1] == "list" and len(c[3]) == 1 and not c[3][0][1]:
+            ce = c[3][0][0]
+            e1 = ("elem", d + 1, ce[3])
+            inner = ("fold", "for", d + 1, ce[3], ("acc", d, 0), ("mut", "append", ("acc", d + 1, 0), (subst(c[2], {ce: e1}),), ()), ())
     if not (head(it) == "call" and strip(it[1]) == ("glob", "builtins.enumerate") and head(inner) == "fold" and inner[1] == "for" and not inner[6]):
         return None
     G = _call_arg(it, 0, "iterable")
